@@ -28,8 +28,13 @@ for p in props:
             'text': o.get('level_text', 'Lean 4 theorems about an executable model of the anchored code, for all inputs; model tied to /repo by regenerated tables and a differential correspondence run on every check.'),
             'design_ref': o.get('design_ref', 'DESIGN.md section 5, ' + pid),
         },
-        'level_note': o.get('level_note', 'Trusted: Lean kernel, axioms propext/Classical.choice/Quot.sound, the table generator, the correspondence harness and oracle; modelled not verified: ' + '; '.join(o.get('modelled_not_verified', [])) ),
-        'technique': o.get('technique', 'Lean 4 machine-checked proof over a hand-written model + differential correspondence with the implementation'),
+        'level_note': o.get('level_note', 'Trusted: Lean kernel, axioms propext/Classical.choice/Quot.sound, the table generator, the correspondence harness and oracle; modelled not verified: ' + '; '.join(o.get('modelled_not_verified', [])) ) + (
+            '' if not o.get('tie_theorems') else
+            ' Translation tie (DESIGN.md 4.5): the current source text of %d functions this property rests on is translated into Lean on every run '
+            '(harness/pytrans.py -> Gen/Trans.lean) and proved equal to the model functions (%s); a lost tie theorem falls back to the widened correspondence.'
+            % (len(o['tie_theorems']), ', '.join(t.replace('NV.Tie.', '') for t in o['tie_theorems']))),
+        'technique': o.get('technique', 'Lean 4 machine-checked proof over a hand-written model + differential correspondence with the implementation') + (
+            '' if not o.get('tie_theorems') else ' + source-to-Lean translation of the arithmetic functions, proved equal to the model'),
     })
 m = {
     'version': 1,
